@@ -183,8 +183,34 @@ def run(ctx):
         pass
     ctx._distinct.update(("label", i) for i in range(n_labels - 1))
     ctx.hist["labels-exhaustive"] = n_labels
-    # ---- 2. listings
+    # ---- 1b. affix family: every valid label (and its case variants) under repeated / misplaced 'n' prefixes and 'a' suffixes,
+    # beyond the length the exhaustive sweep reaches: only ONE optional n prefix and ONE optional a suffix belong to the notation
     corr_expr, corr_exp, corr_case = [], [], []
+    cores = []
+    for l in LW:
+        cores += [l, l.lower(), l.upper(), l[0].upper() + l[1:].lower()]
+    cores += list(STACK) + [f"{d}BPh" for d in range(10)] + [f"{d}BR" for d in range(10)] + ["s34", "cWX", "10BR", "BPh"]
+    n_affix = 0
+    for pre in ("", "n", "nn", "nnn", "N", "a", "an", "na"):
+        for suf in ("", "a", "aa", "n", "an", "na", "A"):
+            for core in cores:
+                lab = pre + core + suf
+                if len(lab) <= L:
+                    continue        # already swept
+                r = impl_unify(lab)
+                o = oracle(lab)
+                n_affix += 1
+                ctx.count(("affix", lab), True, "label-affix")
+                if isinstance(r, Err):
+                    ctx.violation(f"unify_classification raised {r.kind}", {"label": lab})
+                    continue
+                if tuple(r) != o:
+                    ctx.violation("label is filed under the wrong category/class", {"label": lab, "implementation": r, "expected": list(o)})
+                corr_expr.append(f"run_unify {lit(lab)}")
+                corr_exp.append(r)
+                corr_case.append({"label": lab})
+    ctx.coverage["affix_labels"] = n_affix
+    # ---- 2. listings
     for _ in range(150 if ctx.quick else 1500):
         lines = []
         for _ in range(rng.randint(1, 8)):
